@@ -361,6 +361,9 @@ PROPS["C11"]["tests"].append(dict(name="TestVF_C11Perturbed", rapid=False, env=d
 PROPS["C12"]["tests"].append(dict(name="TestVF_C12Hostile", env=dict(VERIF_CASE_LIMIT=300),
                                   quick=dict(checks=960, shards=16, timeout=900, vmem_kb=6291456), thorough=dict(checks=40000, shards=16, timeout=10000, vmem_kb=6291456)))
 
+PROPS["C12"]["tests"].append(dict(name="TestVF_C12Archive", env=dict(VERIF_CASE_LIMIT=120),
+                                  quick=dict(checks=16000, shards=8, timeout=600), thorough=dict(checks=1600000, shards=16, timeout=6000)))
+
 # native fuzz targets (thorough tier only; Go's fuzzer cannot be pinned to a seed, a saved crasher is the reproducible unit)
 for _pid in ["C03", "C04", "C06", "C15", "C16", "C20"]:
     PROPS[_pid]["tests"].append(dict(name="FuzzVF_%s" % _pid, rapid=False, thorough=dict(shards=1, timeout=400, fuzz="90s", par=16)))
